@@ -191,7 +191,8 @@ def run(ck):
             for t in (node_.targets if isinstance(node_, ast.Assign) else [node_.target]):
                 if isinstance(t, ast.Attribute):
                     calls.add("store " + ast.unparse(t))
-    extra = {c_ for c_ in calls if not (c_.endswith(".resend") or c_.startswith("time."))}
+    from ..model import BUILTINS
+    extra = {c_ for c_ in calls if not (c_.endswith(".resend") or c_.startswith("time.") or c_ in BUILTINS)}
     agg.add("R07.0", f_tx, "_tx_standby() only calls RF24.resend() and the clock (frame condition of its summary)", not extra, "also uses %s" % sorted(extra))
     # ---- summaries for the network callees ----------------------------------------------------------
     f_write = P.method(mix, "_write")
@@ -414,7 +415,33 @@ def run(ck):
     c04.reconfigure(ck, agg)
     # "pipe 0 on its level's shared address": the multicast_level setter re-opens pipe 0 on the address of the level it stores (R14.1)
     from . import c14
-    c14.level_domain(ck, agg, net.NetNode(ck, "rf24_network", "RF24Network"))
+    nn14 = net.NetNode(ck, "rf24_network", "RF24Network")
+    c14.level_domain(ck, agg, nn14)
+    # ... and that address is the same for every node of the level, whatever its digits (R14.4)
+    c14.pipe_address(ck, agg, nn14)
+    # R07.4 "own addresses": the node's logical address changes only inside _begin(), which re-opens the six pipes on it - a function that
+    # stores a new address by itself (a failure path 'resetting' to the default address) leaves the radio listening on the old one
+    af = net.FN("_addr")
+    f_begin2 = P.method(mix, "_begin")
+    nwr = 0
+    for fi in P.all_funcs():
+        for x in iter_own_nodes(fi.node):
+            tgs = []
+            if isinstance(x, ast.Assign):
+                tgs = list(x.targets)
+            elif isinstance(x, (ast.AugAssign, ast.AnnAssign)):
+                tgs = [x.target]
+            flat = []
+            for t in tgs:
+                flat.extend(t.elts if isinstance(t, (ast.Tuple, ast.List)) else [t])
+            for t in flat:
+                if isinstance(t, ast.Attribute) and t.attr == af and isinstance(t.value, ast.Name) and t.value.id == "self" and fi.cls is not None and mix in fi.cls.mro:
+                    nwr += 1
+                    from .common import allowed_via_callers
+                    okw, why = allowed_via_callers(P, fi, {f_begin2.name, "__init__"})        # _begin() itself, or a private helper only it calls
+                    agg.add("R07.4", fi, "the node's logical address is stored only by _begin() (and the constructor)", okw,
+                            "%s assigns self.%s without re-opening the pipes%s: the node then listens on the addresses of its previous logical address" % (fi.qualname, af, why), x)
+    agg.add("R07.4", f_begin2, "_begin() stores the logical address (anchor)", nwr >= 1, "no assignment to self.%s found" % af)
     agg.flush()
     ck.floor("R07", "_write/_net_update/_begin scenarios", nscen, 40)
     ck.floor("R07.1", "public entry points reaching the radio", nentry, 20)
